@@ -111,6 +111,7 @@ def finish(col, replay_fn=None):
     exit_code = 0
     observed_known = []
     new_sigs = []
+    unreproduced = []
     for sig, vs in by_sig.items():
         if sig in known:
             observed_known.append(sig)
@@ -126,9 +127,11 @@ def finish(col, replay_fn=None):
                 # (a replay that reports the same site and kind of violation with another feature string - the first of several
                 # simultaneous mismatches - reproduces the violation)
                 if sig not in sigs and not any(' | '.join(x.split(' | ')[:2]) == head for x in sigs):
-                    raise env.InternalError(
-                        f"non-deterministic replay (attempt {attempt}) for signature {sig!r}: got {sigs!r}; "
-                        f"case={json.dumps(rep['case'])[:600]}")
+                    unreproduced.append(f"non-deterministic replay (attempt {attempt}) for signature {sig!r}: got {sigs!r}; "
+                                        f"case={json.dumps(rep['case'])[:600]}")
+                    break
+            if unreproduced and unreproduced[-1].split('signature ')[1].startswith(repr(sig)):
+                continue
         d = os.path.join(OUT, 'replays', pid)
         os.makedirs(d, exist_ok=True)
         path = os.path.join(d, hashlib.sha1(sig.encode()).hexdigest()[:10] + '.json')
@@ -149,6 +152,14 @@ def finish(col, replay_fn=None):
         print(f"  instances this run: {len(vs)}")
         new_sigs.append(sig)
         exit_code = 1
+    if unreproduced:
+        # a verdict of the exploration that a replay from a fresh process does not repeat is never reported as a violation; it is
+        # an internal error of the run unless other, reproducible violations were found on the same tree (then it is noted:
+        # what such an implementation does depends on what the process did before)
+        if exit_code == 0:
+            raise env.InternalError(unreproduced[0])
+        for u in unreproduced:
+            print(f"NOTE: seen during the exploration only (depends on earlier calls of the process): {u[:300]}")
     for sig, what in known.items():
         if sig not in by_sig:
             print(f"NOTE: known finding not observed on this tree: property={pid} {what} [sig={sig}]")
